@@ -33,6 +33,34 @@ class _AnsiStream(object):
         return cls._cls()
 
 
+class _FileStream(object):
+    """StreamOutputStream over a block-buffered file: what the sections deliver is read back from the file itself
+    after every operation - the screen is what the terminal has received, not what sits in a buffer"""
+
+    _cls = None
+
+    @classmethod
+    def make(cls):
+        if cls._cls is None:
+            import tempfile
+
+            from clikit.io.output_stream import StreamOutputStream
+
+            class Delivered(StreamOutputStream):
+                def __init__(self):
+                    os.makedirs(T.WORK, exist_ok=True)
+                    self._file = tempfile.NamedTemporaryFile(mode="w", buffering=8192, encoding="utf-8", dir=T.WORK,
+                                                             prefix="c15_tty_", newline="")
+                    super(Delivered, self).__init__(self._file)
+
+                def fetch(self):
+                    with open(self._file.name, encoding="utf-8", newline="") as f:
+                        return f.read()
+
+            cls._cls = Delivered
+        return cls._cls()
+
+
 def build(ansi, how, via):
     """-> (stream, factory, parent output or None) where factory() creates the next section on the shared output.
     Whether a section decorates is decided by Output.supports_ansi() - stream AND formatter - so both kinds of output
@@ -45,7 +73,10 @@ def build(ansi, how, via):
     from clikit.io.input_stream import StringInputStream
     from clikit.io.output_stream import BufferedOutputStream
 
-    if ansi:
+    if how in ("file", "plainfile"):  # a real (buffered) file behind StreamOutputStream, read back per operation
+        stream = _FileStream.make()
+        fmt = AnsiFormatter(forced=True) if ansi else PlainFormatter()
+    elif ansi:
         stream = _AnsiStream.make() if how == "stream" else BufferedOutputStream()
         fmt = AnsiFormatter() if how == "stream" else AnsiFormatter(forced=True)
     elif how == "ttyplain":  # the stream claims ANSI support (a tty) but the formatter disables it (--no-ansi)
@@ -279,7 +310,7 @@ def may_write(gate, flag):
 def random_case(rng, maxlen=40):
     w = rng.choice([4, 4, 7, 7, 20])
     ansi = rng.random() < 0.8
-    case = {"w": w, "ansi": ansi, "how": rng.choice(["forced", "forced", "stream"] if ansi else ["plainfmt", "ansifmt", "ttyplain", "ttyplain"]),
+    case = {"w": w, "ansi": ansi, "how": rng.choice(["forced", "forced", "stream", "file"] if ansi else ["plainfmt", "ansifmt", "ttyplain", "ttyplain", "plainfile"]),
             "via": rng.choice(["output", "output", "direct", "io"]), "pre_by": rng.choice(["stream", "output"]),
             "pre": [rng.choice(["##", "#" * w, "#" * (w + 1)]) for _ in range(rng.choice([0, 1, 1, 2]))], "ops": []}
     gated = rng.random() < 0.5  # half of the cases use message-level flags / per-section quiet and verbosity
@@ -409,6 +440,8 @@ def run(ctx):
             case["via"] = vias[len(seen) % 3]
             hows = ("forced", "stream") if case["ansi"] else ("plainfmt", "ttyplain", "ansifmt")
             case["how"] = hows[(len(seen) // 3) % len(hows)]
+            if len(seen) % 10 == 0:  # every tenth behaviour is delivered through StreamOutputStream into a real file
+                case["how"] = "file" if case["ansi"] else "plainfile"
             tr = run_case(case)
             check_known(tr, case["ansi"])
             ctx.count()
